@@ -195,7 +195,22 @@ func genMut(g *gen.G, c val.Col, cur val.Val, u, maxn int) (Mut, bool) {
 	case 'm':
 		switch g.Intn(3) {
 		case 0:
-			return Mut{Col: c.Name, Mutator: "insert", Arg: g.Value(c, u, 3)}, true
+			arg := g.Value(c, u, 3)
+			if len(cur.Map) > 0 && g.Chance(0.6) {
+				// keys the map already has, with other values: insert must keep what is there - also a value that is the zero value
+				have := map[string]bool{}
+				for _, p := range arg.Map {
+					have[p[0].Key()] = true
+				}
+				for _, p := range cur.Map {
+					if g.Chance(0.6) && !have[p[0].Key()] {
+						nv := g.Atom(c.VT, u+2, nil)
+						arg.Map = append(arg.Map, [2]val.Atom{p[0], nv})
+					}
+				}
+				arg = arg.Canon()
+			}
+			return Mut{Col: c.Name, Mutator: "insert", Arg: arg}, true
 		case 1: // delete by keys
 			var keys []val.Atom
 			for _, p := range cur.Map {
